@@ -56,6 +56,11 @@ type Call struct {
 	PanicAtTick uint64 `json:"panic_at_tick,omitempty"`
 	// SameAs >= 0: reuse the identical Source and Option values of the call with that index (history checks).
 	SameAs *int `json:"same_as,omitempty"`
+	// With SameAs: before this call the CALLER edits its own argument objects in place - the size map captured by the
+	// reused WithNodeSize option (EditSizes: entries set; W < 0 deletes the entry) and/or the strings of the reused edge
+	// list (EditEdges: same shape as the original). The call must behave like a call with freshly built, equal arguments.
+	EditSizes []NodeSize `json:"edit_sizes,omitempty"`
+	EditEdges [][]string `json:"edit_edges,omitempty"`
 	// Repeat > 1 (history jobs): the call is made Repeat times in a row with the same argument values; the recorded
 	// outcome is that of the last repetition (long histories are mostly such filler)
 	Repeat int `json:"repeat,omitempty"`
@@ -97,7 +102,7 @@ type Budgets struct {
 
 // Schedule selects how the cooperative scheduler picks tasks.
 type Schedule struct {
-	Policy   string `json:"policy"` // rr | random | pct | explicit | serial
+	Policy   string `json:"policy"` // rr | random | pct | stall | explicit | serial  (stall: Depth = per-mille of yields that stall the task, Steps = longest stall)
 	Seed     uint64 `json:"seed,omitempty"`
 	Depth    int    `json:"depth,omitempty"`    // pct: number of priority change points
 	Steps    int    `json:"steps,omitempty"`    // pct: expected number of scheduling steps (range of the change points)
